@@ -130,6 +130,14 @@ func (tc *TypeChecker) CheckType(value interface{}, expectedType Type) error {
 		return nil
 	}
 
+	// `T?` only adds "may be absent or null" to T. A present value is checked
+	// against T itself, so that what CheckType does for T - integral JSON
+	// numbers for int, element checks for lists, field checks for named types -
+	// also happens for T?.
+	if optType, ok := expectedType.(OptionalType); ok {
+		return tc.CheckType(value, optType.InnerType)
+	}
+
 	// JSON has a single number type, so every number in a request body decodes
 	// to float64. Without this, an `int` field rejects the perfectly ordinary
 	// body {"id": 1} with "expected int, got float". A value with a fractional
